@@ -13,6 +13,7 @@ import os
 import re
 import shutil
 import signal
+import subprocess
 import sys
 import tempfile
 import time
@@ -101,9 +102,10 @@ def run_schedule(spec):
     outfile = Path(base) / "out.json"
     timeout = spec.get("timeout", 90)
     t_end = time.time() + timeout
-    pid = os.fork()
-    if pid == 0:
-        _child(graph, K, worker, base, outfile)
+    json.dump({"graph": graph, "K": K, "worker": worker}, open(Path(base) / "spec.json", "w"))
+    proc = subprocess.Popen([core.PY, "-m", "harness.sub_child", str(base)], env=core.child_env(hooks=True),
+                            stdout=subprocess.DEVNULL, stderr=open(Path(base) / "child.err", "w"))
+    pid = proc.pid
     problem = None
     try:
         def body_lines():
@@ -113,8 +115,7 @@ def run_schedule(spec):
             return sum(1 for l in open(Path(base) / "events.ndjson") if '"a": "scan"' in l)
 
         def child_done():
-            r, st = os.waitpid(pid, os.WNOHANG)
-            return r == pid
+            return proc.poll() is not None
 
         finished = False
         for j in spec["order"]:
@@ -152,8 +153,8 @@ def run_schedule(spec):
             if child_done():
                 break
             if time.time() > t_end + 30:
-                os.kill(pid, signal.SIGKILL)
-                os.waitpid(pid, 0)
+                proc.kill()
+                proc.wait()
                 problem = problem or {"what": "submitter did not terminate"}
                 break
             time.sleep(0.005)
@@ -164,7 +165,8 @@ def run_schedule(spec):
                 "cached_ok": sorted(d.name for d in cache.iterdir() if d.is_dir() and (d / "_result.pklz").exists()) if cache.exists() else []}
     finally:
         try:
-            os.kill(pid, signal.SIGKILL)
+            proc.kill()
+            proc.wait()
         except Exception:
             pass
         shutil.rmtree(base, ignore_errors=True)
